@@ -135,7 +135,12 @@ func (r *Run) Hist(name, key string) {
 
 // Wants reports whether the case with this key should run (replay filter).
 func (r *Run) Wants(key string) bool {
-	return r.Only == "" || strings.HasPrefix(key, r.Only)
+	if r.Only == "" {
+		return true
+	}
+	// the stored key of a violation is the case key plus a suffix naming the failed sub-check, and monitors
+	// gate whole groups by a shorter key: match in both directions on "/" boundaries
+	return strings.HasPrefix(key+"/", r.Only+"/") || strings.HasPrefix(r.Only+"/", key+"/")
 }
 
 // Case records one executed case. sig is the canonical description used for
